@@ -404,3 +404,6 @@ W('C01-W-multior-keeps-callers-list', 'C01', 'C01.d(i)', (SUBSET, "        self.
 T('C01-T-multior-list-comprehension', 'C01', (SUBSET, "        self.states = list(states)\n", "        self.states = [state for state in states]\n"))
 PARSE_PY = 'glue/core/parse.py'
 W('C14-W-parsed-link-no-replace-ids', 'C14', 'C14.g', (PARSE_PY, "    def replace_ids(self, old, new):\n        super(ParsedComponentLink, self).replace_ids(old, new)\n", "    def _replace_ids_unused(self, old, new):\n        super(ParsedComponentLink, self).replace_ids(old, new)\n"))
+
+# F41 (boolean-mask views of indexed datasets) must be reported again if it returns
+W('C04-W-indexed-mask-view-not-translated', 'C04', 'C04.g', (DERIVED_PY, "        elif isinstance(view, np.ndarray) and view.dtype == bool:\n            # a boolean mask selects the same elements as its index arrays\n            view = np.nonzero(view)\n", ""))
